@@ -40,6 +40,11 @@ for d in sorted(glob.glob(V + '/seeded/C*-*/')):
         items.append((n, n.split('-')[0], 'seeded/%s/patch.diff' % n))
 for f, prop in sorted(REINTRO.items()):
     items.append(('reintroduce-' + f, prop, 'variants/reintroduce/%s.diff' % f))
+# breaking edits constructed on top of a refactoring (variants/derived/<PROP>-<name>.diff): they test that a
+# generalised recogniser (queue object, work-list closure, ...) still detects the break in the refactored shape
+for f in sorted(glob.glob(V + '/variants/derived/*.diff')):
+    n = os.path.basename(f)[:-5]
+    items.append(('derived-' + n, n.split('-')[0], 'variants/derived/%s.diff' % n))
 with ThreadPoolExecutor(jobs) as ex:
     res = list(ex.map(lambda it: keys_for(V + '/' + it[2], it[1]), items))
 out = []
